@@ -115,17 +115,23 @@ pub fn issue_own(ctx: &mut Ctx, case: &Value, entry_prop: &str) -> Option<Issued
     let exp = case["exp"].as_bool().unwrap_or(false);
     let mut header = Header::new(alg.clone());
     header.typ = Some("sd-jwt".to_string());
+    // two cases in five issue once or twice more from the same issuer object first (a function of
+    // the case itself, so that a replay does the same)
+    let reissue = case.get("reissue").and_then(|v| v.as_u64())
+        .unwrap_or_else(|| [0u64, 0, 0, 1, 2][(crate::report::hash_of(&case["tree"]) % 5) as usize]) as usize;
+    ctx.report.bump(&format!("issued-after-{}-earlier-encodes", reissue));
     let req = IssueReq {
         claims: &claims, paths: &paths,
         decoy: case["decoy"].as_i64().map(|n| n as i32),
         cnf: if kb { Some(&jwk) } else { None },
         header: Some(header),
         exp_in: if exp { Some(3600) } else { None },
-        repeats: 1,
+        repeats: 1 + reissue,
     };
     let issued = real::issue(&req, &enc);
     let token = match &issued {
-        Out::Ok(ts) => ts[0].clone(),
+        // the token looked at is the LAST one issued from the same issuer object
+        Out::Ok(ts) => ts[ts.len() - 1].clone(),
         other => {
             ctx.report.diff("property", "Issuer::encode", &format!("Issuer::encode:valid-marking:{}", out_sig(other)), case,
                 json!({"real": other.describe(|_| Value::Null), "claims": claims, "paths": paths}));
